@@ -25,7 +25,7 @@ TECHNIQUE = ('Lean 4 theorems about a model of mibdump\'s exit code and report a
              'independence of the visiting order by a commuting-update argument; the treatment of an absent destination is extracted from the '
              'script and pinned); the scripts are run as subprocesses on generated on-disk module sets: exit status, parsed report and '
              'destination listing are compared with the model fed with the status map of an in-process library run wired like the script, and '
-             'mibcopy is run in every visiting order')
+             'mibcopy is run in every visiting order; theorems that the revision of a module is its latest REVISION clause (compared with the compiler\'s report on modules with 0-5 clauses in random order) and that the borrower repositories of a command line are filed in order with the flavour --generate-mib-texts has given the run before them (tied to the wiring of the library run)')
 LEVEL_TEXT = ('Proved in Lean: exit status 0 iff no module is missing or failed; a module is reported under exactly the category of its '
               'status; after mibcopy\'s loop every module seen is in the destination with a revision at least as new as every source seen; a dry run of mibcopy leaves the destination alone and takes every copy / do-not-copy decision of the real run (C20_mibcopy_dry_run, C20_mibcopy_dry_report), '
               'what is stored is a file seen or what was there before, and the stored revision does not depend on the visiting order - for '
